@@ -360,6 +360,7 @@ func parentMain(p *Prop, tier string, seed int64) int {
 	var evals, inconcl, nviol int64
 	counters := map[string]int64{}
 	inconclWhy := map[string]int64{}
+	observed := map[string]map[uint64]struct{}{}
 	var allDistinct []uint64 // union by sort + unique (8 bytes per hash instead of a map entry)
 	var samples []any
 	perKindSamples := map[string]int{}
@@ -399,6 +400,16 @@ func parentMain(p *Prop, tier string, seed int64) int {
 			viols = append(viols, o.res.Violations...)
 			allDistinct = append(allDistinct, o.dist...)
 			o.dist = nil
+			for name, l := range o.res.Sets {
+				m := observed[name]
+				if m == nil {
+					m = map[uint64]struct{}{}
+					observed[name] = m
+				}
+				for _, h := range l {
+					m[h] = struct{}{}
+				}
+			}
 		}
 		if o.res != nil {
 			// the child completed its case list (exit 66 = race reports, counted from the logs below)
@@ -536,6 +547,13 @@ func parentMain(p *Prop, tier string, seed int64) int {
 		"children":            nshards,
 		"floors":              p.Floors,
 		"floors_missed":       floorMiss,
+	}
+	if len(observed) > 0 {
+		od := map[string]int{}
+		for name, m := range observed {
+			od[name] = len(m)
+		}
+		cov["observed_distinct"] = od
 	}
 	if p.Exhaustive {
 		cov["exhaustive"] = true
